@@ -2,7 +2,7 @@
    the implementation's wire bytes, return value and compression window must equal the model's.
    The deflate encoder is instantiated by the compressed bytes observed on the wire (DESIGN 5 C01);
    the UTF-8 verdict by Model/Utf8 once available (here: shipped with the case and cross-checked there). *)
-From Gws Require Import Lib.Base Lib.Val Spec.Rfc6455 Model.Header Model.Writer.
+From Gws Require Import Lib.Base Lib.Val Spec.Rfc6455 Model.Header Model.Writer Model.Utf8.
 Local Open Scope N_scope.
 
 Definition win_write (cap : nat) (w p : list N) : list N := if (cap =? 0)%nat then [] else lastn cap (w ++ p).
@@ -31,7 +31,7 @@ Definition check_c05w (c : val) : bool :=
   let op := vn (vget 4 c) in let slices := map vb (vl (vget 5 c)) in let key := vb (vget 6 c) in
   let uok := vbool (vget 7 c) in let dout := vb (vget 8 c) in
   let res := vn (vget 9 c) in let wire := vb (vget 10 c) in let w_after := vb (vget 11 c) in
-  let '(fr, w', r) := do_write (fun _ => uok) (fun _ _ => dout ++ flate_tail4) (list N) (fun x => x) (win_write cap)
+  let '(fr, w', r) := do_write Utf8.utf8_valid (fun _ _ => dout ++ flate_tail4) (list N) (fun x => x) (win_write cap)
                                cfg closed w op slices key in
   (wres_code r =? res) && opt_bytes_eqb fr wire && bytes_eqb w' w_after && wire_wf (w_server cfg) wire.
 
@@ -41,7 +41,7 @@ Definition check_c05bc (c : val) : bool :=
   let cfg := mk_wcfg (vget 0 c) in
   let op := vn (vget 1 c) in let payload := vb (vget 2 c) in let key := vb (vget 3 c) in
   let uok := vbool (vget 4 c) in let dout := vb (vget 5 c) in let gres0 := vn (vget 6 c) in let frame := vb (vget 7 c) in
-  match broadcast_frame (fun _ => uok) (fun _ _ => dout ++ flate_tail4) cfg op payload key with
+  match broadcast_frame Utf8.utf8_valid (fun _ _ => dout ++ flate_tail4) cfg op payload key with
   | GFrame fr =>
       (gres0 =? 0) && bytes_eqb fr frame &&
       forallb (fun t =>
